@@ -34,6 +34,8 @@ fn main() {
     }
     // panics of the code under test are data, reported by the callers of util::catch
     std::panic::set_hook(Box::new(|_| {}));
+    // a runaway allocation in the code under test must abort this process, not invite the OOM killer
+    alloc::set_cap(6usize << 30);
     let out = arg(&args, "--out").unwrap_or_else(|| "out.ndjson".to_string());
     let seed = argn(&args, "--seed", 1);
     let r = match args[1].as_str() {
@@ -44,7 +46,7 @@ fn main() {
         "c19-run" => c19::run(&arg(&args, "--sources").expect("--sources"), &out),
         "c17-run" => c17::run(&arg(&args, "--progs").expect("--progs"), argn(&args, "--depth", 2) as usize, &out),
         "lib-dump" => dump::run(&arg(&args, "--file").expect("--file"), &out),
-        "e57-read" => prog::read_cases(&arg(&args, "--cases").expect("--cases"), &out),
+        "e57-read" => prog::read_cases(&arg(&args, "--cases").expect("--cases"), argn(&args, "--from", 0) as usize, &out),
         "untrusted-run" => untrusted::run(&arg(&args, "--bases").expect("--bases"), &arg(&args, "--muts").expect("--muts"), argn(&args, "--from", 0) as usize, &out),
         "dump-bases" => untrusted::dump_bases(&arg(&args, "--bases").expect("--bases"), &out),
         "bits-replay" => bits::replay(&arg(&args, "--edges").expect("--edges"), &out),
